@@ -208,6 +208,16 @@ func renderService(defs []mDef, idx int) string {
 		fmt.Fprintf(&sb, "  owner%d(id: ID!): Owner\n", idx)
 	}
 	fmt.Fprintf(&sb, "  ping%d: String\n}\n", idx)
+	// a root type every service declares and no two services share a field of (the usual shape of Mutation)
+	// (the first service three fields, the others one or two: field lists of different lengths and capacities)
+	switch {
+	case idx == 0:
+		fmt.Fprintf(&sb, "type Mutation {\n  act%d(n: Int = 1): String\n  run%d: Boolean\n  put%d(id: ID!): Node\n}\n", idx, idx, idx)
+	case idx%2 == 1:
+		fmt.Fprintf(&sb, "type Mutation {\n  act%d(n: Int = 1): String\n}\n", idx)
+	default:
+		fmt.Fprintf(&sb, "type Mutation {\n  act%d(n: Int = 1): String\n  run%d: Boolean\n}\n", idx, idx)
+	}
 	return sb.String()
 }
 
@@ -467,10 +477,18 @@ func SerSchema(s *ast.Schema) map[string]interface{} {
 		if builtinName(n) {
 			continue
 		}
+		if d == nil {
+			types = append(types, map[string]interface{}{"name": n, "kind": "<nil definition>", "fields": []interface{}{}, "ifaces": []string{}})
+			continue
+		}
 		fields := []interface{}{}
 		switch d.Kind {
 		case ast.Enum:
 			for _, v := range d.EnumValues {
+				if v == nil {
+					fields = append(fields, map[string]interface{}{"name": "<nil enum value>", "sig": ""})
+					continue
+				}
 				fields = append(fields, map[string]interface{}{"name": v.Name, "sig": dirsStr(v.Directives)})
 			}
 		case ast.Union:
